@@ -38,6 +38,11 @@ MakeKp ==
   /\ UNCHANGED sc
 
 IdSet == {sc.ids[k] : k \in 1..sc.n}
+\* reconstruct takes a slice of key packages in the caller's order: ascending, descending, rotated,
+\* and (a refusal) with the first package listed twice
+ReconOrders(s) ==
+  LET m == Len(s) IN
+  CallerOrders(s) \cup {Append(s, s[1])}
 
 ChooseProbe ==
   /\ pc[1] = "probe"
@@ -50,7 +55,8 @@ ChooseProbe ==
              \/ sc' = sc @@ [probe |-> [kind |-> "tamper", i |-> i, what |-> "trunc", k |-> 0, d |-> 0]]
              \/ \E d \in Deltas \cup {0} : sc' = sc @@ [probe |-> [kind |-> "tamper", i |-> i, what |-> "extend", k |-> 0, d |-> d]]
      \/ /\ "recon" \in Probes
-        /\ \E T \in SUBSET IdSet : T # {} /\ sc' = sc @@ [probe |-> [kind |-> "recon", T |-> Sorted(T)]]
+        /\ \E T \in SUBSET IdSet : T # {} /\ \E o \in ReconOrders(Sorted(T)) :
+               sc' = sc @@ [probe |-> [kind |-> "recon", T |-> o]]
   /\ pc' = <<"p1", 0>>
   /\ UNCHANGED fvars
 
@@ -112,10 +118,10 @@ InvTamper ==
      IN /\ last.res.ok <=> holds
         /\ last.res.ok => last.res.min = Len(x.commit) /\ last.res.vk = x.commit[1]
 
-\* any t (or more) packages reconstruct the key; fewer are refused
+\* any t (or more) distinct packages, in any order, reconstruct the key; fewer (or a repeated one) are refused
 InvRecon ==
   (pc[1] = "done" /\ "probe" \in DOMAIN sc /\ PR.kind = "recon") =>
-     IF Len(PR.T) >= sc.t THEN last.res.ok /\ last.res.key = sc.key ELSE ~last.res.ok
+     IF Len(PR.T) >= sc.t /\ ~HasDup(PR.T) THEN last.res.ok /\ last.res.key = sc.key ELSE ~last.res.ok
 
 Emit == (EMIT /\ pc[1] = "done") => PrintT(ToJson(Script("C06")))
 =============================================================================
